@@ -424,6 +424,17 @@ def rule_resize_state_order(ctx: Ctx) -> RuleResult:
     return rr
 
 
+# functions that manage the pending wrap themselves or move relative to a position where the flag stays meaningful
+ROTTEN_MANAGERS = {
+    "push_cursor": "decides the flag for every character written",
+    "push_char": "writes one character at given coordinates for push_cursor",
+    "process_char": "backspace: one step left of the current cell",
+    "linefeed": "keeps the column; the wrap stays pending on the new row as on xterm",
+    "carriage_return": "column 0: the flag is re-decided by the next character (x + 1 < width)",
+    "resize": "clamps the cursor into the new grid",
+}
+
+
 def rule_rotten_flag(ctx: Ctx) -> RuleResult:
     """push_cursor() is the one place that decides, for every character written, whether the cursor is 'rotten'
     (parked on the last column with the wrap still pending).  Every path through it must decide the flag anew: a
@@ -443,6 +454,27 @@ def rule_rotten_flag(ctx: Ctx) -> RuleResult:
     rr.inst("move_cursor", True, {"stores": len(mstores)})
     if not mstores or mcfg.exit in mcfg.reachable([mcfg.entry], avoid=mstores, labels=("n", "T", "F")):
         rr.add(finding("PASS", mv, mv.node, "move_cursor() can position the cursor without clearing is_rotten_cursor: after a character was written into the last column, CUP to a last-column cell followed by a character wraps that character onto the next row", construct="move_cursor keeps a pending wrap"))
+    # ... and so does every other command that places the cursor at coordinates of its own (DECRC, DECSTBM, DECOM,
+    # the homing clear, tab): a call self.set_term_cursor(<coordinates>) outside the functions that manage the wrap
+    # themselves is dominated by `self.is_rotten_cursor = False`.  Before fix c127c49 ESC 8 / CSI r / CSI ?6h moved
+    # the cursor with the flag still armed and the next character wrapped from a cell it was never written to.
+    tc = p.cls(f"{VT}.TermCanvas")
+    for q, g in sorted(p.functions.items()):
+        if g.cls is not tc or g.is_lambda or g.parent is not None:
+            continue
+        name = q.rsplit(".", 1)[1]
+        if name in ROTTEN_MANAGERS or name == "move_cursor":
+            continue
+        gcfg = None
+        for cn_call in [c for c in g.own_nodes() if isinstance(c, ast.Call) and isinstance(c.func, ast.Attribute) and c.func.attr == "set_term_cursor" and isinstance(c.func.value, ast.Name) and c.func.value.id == g.self_name and c.args]:
+            if any(isinstance(a, ast.Starred) for a in cn_call.args):
+                continue  # clear(cursor=...) puts the cursor back where the caller had it: not a movement
+            gcfg = gcfg or cfg_of(g)
+            owner = next((n for n in gcfg.nodes for e in node_exprs(n) for x in walk_no_nested(e) if x is cn_call), None)
+            gstores = [n for n in gcfg.nodes if isinstance(n.ast, ast.Assign) and any(isinstance(t, ast.Attribute) and t.attr == "is_rotten_cursor" for t in n.ast.targets) and isinstance(n.ast.value, ast.Constant) and n.ast.value.value is False]
+            rr.inst(f"{name}: {norm(cn_call, 40)}", True, {"function": name, "call": norm(cn_call, 40), "clears": len(gstores)} if len(rr.samples) < 10 else None)
+            if owner is None or not gstores or not gcfg.dominated(owner, gstores):
+                rr.add(finding("PASS", g, cn_call, f"{name}() places the cursor with `{norm(cn_call, 40)}` without clearing is_rotten_cursor on every path to it: with a wrap pending (a character was just written into the last column) the next character printed at the new position is wrapped onto the following row instead", construct=f"{name}: cursor placed with the pending wrap kept"))
     if cfg.exit in cfg.reachable([cfg.entry], avoid=stores, labels=("n", "T", "F")):
         path = cfg.witness_path(cfg.entry, [cfg.exit], avoid=stores, labels=("n", "T", "F"))
         last_test = next((n for n in reversed(path or []) if n.kind == "test"), None)
@@ -926,6 +958,10 @@ MUTANTS = [
     Mut("sgr-trailing-zero-reset", _V, "TermCanvas.csi_set_attr", "        attributes = set()\n", "        if attrs[-1] == 0:\n            self.attrspec = None\n        attributes = set()\n", "SIB|vterm.TermCanvas.csi_set_attr|positional"),
     Mut("twin-sgr-undo-condition-order", _V, "TermCanvas.csi_set_attr", "if fg >= 8 and self.attrspec.colors == 16 and self.attrspec.bold:", "if self.attrspec.bold and self.attrspec.colors == 16 and fg >= 8:", twin=True),
     Mut("ich-count-unclamped", "urwid/vterm.py", "TermCanvas.insert_chars", "        # more than the rest of the row cannot be shifted in\n        chars = min(chars, self.width - x)\n", "", "BOUND|vterm.TermCanvas.insert_chars"),
+    Mut("decrc-keeps-pending-wrap", "urwid/vterm.py", "TermCanvas.restore_cursor", "        # an explicit cursor movement cancels a pending wrap\n        self.is_rotten_cursor = False\n", "", "PASS|vterm.TermCanvas.restore_cursor"),
+    Mut("decstbm-keeps-pending-wrap", "urwid/vterm.py", "TermCanvas.csi_set_scroll", "            self.is_rotten_cursor = False  # homing the cursor cancels a pending wrap\n", "", "PASS|vterm.TermCanvas.csi_set_scroll"),
+    Mut("decom-keeps-pending-wrap", "urwid/vterm.py", "TermCanvas.set_mode", "                self.is_rotten_cursor = False  # homing the cursor cancels a pending wrap\n", "", "PASS|vterm.TermCanvas.set_mode"),
+    Mut("twin-decstbm-clears-earlier", "urwid/vterm.py", "TermCanvas.csi_set_scroll", "            self.is_rotten_cursor = False  # homing the cursor cancels a pending wrap\n            self.set_term_cursor(0, 0)", "            self.is_rotten_cursor = False\n            home = (0, 0)\n            self.set_term_cursor(*home[:1], home[1])" , twin=True),
     Mut("cup-keeps-pending-wrap", "urwid/vterm.py", "TermCanvas.move_cursor", "        # an explicit cursor movement cancels a pending wrap\n        self.is_rotten_cursor = False\n", "", "PASS|vterm.TermCanvas.move_cursor"),
     Mut("canvas-cursor-unconstrained", "urwid/vterm.py", "TermCanvas.set_term_cursor", "        self.term_cursor = x, y = self.constrain_coords(x, y)", "        self.term_cursor = self.constrain_coords(x, y)", "POSBOUND|vterm.TermCanvas.set_term_cursor"),
     Mut("ed1-stops-before-cursor", "urwid/vterm.py", "TermCanvas.csi_erase_display", "self.erase((0, 0, True), (*self.term_cursor, True))", "self.erase((0, 0, True), (self.term_cursor[0] - 1, self.term_cursor[1], True))", "SIB|vterm.TermCanvas.csi_erase_display"),
